@@ -923,7 +923,7 @@ Proof.
   exists (cn, GInt 5), (cn, GStr (bs "%!s(int64=5)")). split; [vm_compute; discriminate|vm_compute; reflexivity].
 Qed.
 
-(* known finding F31e: a value without DER (nil) is printed as a bare '#', which cannot be read *)
+(* a value without DER (nil; never produced by FromRawDN since F31e) is printed as a bare '#', which cannot be read *)
 Lemma nil_value_unreadable : parse_dn (render_dn [[(cn, GNil)]]) = None.
 Proof. vm_compute. reflexivity. Qed.
 
